@@ -92,6 +92,7 @@ type w9Inv struct {
 	times       []int64
 	slots       map[int64]bool
 	first       int64 // smallest invalidated slot time
+	startNano   int64 // fake clock when invalidate() was called
 	startSeq    uint64
 	completeSeq uint64
 	done        bool // written by the task goroutine
@@ -139,7 +140,8 @@ type w9World struct {
 	bbOff     bool // wind-down: no further parking
 	bbPlan    int  // plan of the pass that runs now: 0 never park, 1/2 park after the 1st/2nd bucket, 3 after every bucket
 	bbHits    int  // buckets the running pass has processed (written by the invalidator goroutine)
-	bbFocus   int  // 0: three chunks per region; 1/2: Gets and invalidations stay within the first 1/2 chunks
+	bbFocus   int  // 0: three chunks in each of two regions; 1: one chunk of the old region; 2: two chunks in each region
+	bbAftermath int // scheduler steps left in which requests ask for what the pass that was parked has invalidated
 	overlap   bool // exploration aid W9_OVERLAP_INVALIDATIONS: do not serialise invalidation passes
 	bbTk      int  // ticket watched by bbWatch
 	bbIter    [2]*cache2Bucket
@@ -205,7 +207,13 @@ func (w *w9World) iterSnapshot() (it [2]*cache2Bucket, ahead bool) {
 // invalidation pass is parked between two buckets. Pointers are compared, never logged.
 func (w *w9World) bbWatch(tickets []*verifsim.Ticket) {
 	tk := w.midPass(tickets)
+	if w.bbAftermath > 0 {
+		w.bbAftermath--
+	}
 	if tk == nil {
+		if w.bbTk != 0 {
+			w.bbAftermath = 8
+		}
 		w.bbTk = 0
 		return
 	}
@@ -214,6 +222,9 @@ func (w *w9World) bbWatch(tickets []*verifsim.Ticket) {
 	if tk.ID != w.bbTk {
 		w.bbTk, w.bbIter, w.bbBuckets = tk.ID, it, n
 		w.r.Probe("invalidation_parked_between_buckets")
+		if n >= 3 {
+			w.r.Probe("invalidation_parked_between_buckets_3_or_more_buckets_in_cache")
+		}
 		if ahead {
 			w.r.Probe("invalidation_parked_between_buckets_with_buckets_ahead")
 		}
@@ -481,6 +492,7 @@ func (w *w9World) observe() {
 			iv.seen = true
 			iv.completeSeq = r.Seq()
 			r.Event("inv", "%d completed", iv.id)
+			w.probeLeftClean(iv)
 			if iv.panicked != "" {
 				r.Fail("C23", "panic", "invalidate", "invalidate panicked: %s", iv.panicked)
 			}
@@ -650,6 +662,35 @@ func (w *w9World) classifyStale(g *w9Get, ld *w9Load, iv *w9Inv, t int64) (sig, 
 	return "stale-rows-other", "the rows were not in the chunk when the Get looked it up, and the awaiter mechanism is not proven", false
 }
 
+// probeLeftClean (white-box, probe only): an invalidate() call has returned; does the shard still
+// hold a chunk that covers one of its slots, has data, is not loading, is not marked invalidated and
+// was last loaded before the call began? A request for that slot would be served from it.
+func (w *w9World) probeLeftClean(iv *w9Inv) {
+	sh := w.ch.shards[time.Duration(iv.step)*time.Second]
+	n := 0
+	sh.mu.Lock()
+	for _, b := range sh.bucketM {
+		b.mu.Lock()
+		for _, ch := range b.chunks {
+			ch.mu.Lock()
+			if ch.data != nil && ch.loading == 0 && ch.invalidatedAt == 0 && ch.loadStartedAt < iv.startNano {
+				for t := range iv.slots {
+					if ch.start <= t*int64(time.Second) && t*int64(time.Second) < ch.end {
+						n++
+						break
+					}
+				}
+			}
+			ch.mu.Unlock()
+		}
+		b.mu.Unlock()
+	}
+	sh.mu.Unlock()
+	if n > 0 {
+		w.r.Probe("completed_invalidation_left_old_chunk_clean")
+	}
+}
+
 // ---- actions ----------------------------------------------------------------------------
 
 func (w *w9World) launchGet() {
@@ -657,7 +698,7 @@ func (w *w9World) launchGet() {
 	q := c.Intn(w.nQ, "query")
 	sc := w.steps[c.Intn(len(w.steps), "step")]
 	base := sc.oldBase
-	if c.Intn(4, "region") == 3 {
+	if w.bbFocus != 1 && c.Intn(4, "region") == 3 {
 		base = sc.recentBase
 	}
 	uni := w.uni(sc)
@@ -667,9 +708,19 @@ func (w *w9World) launchGet() {
 		maxLen = 2*sc.csize + 1
 	}
 	ln := 1 + c.Intn(maxLen, "slots")
-	if w.bbArmed && len(w.invs) > 0 && c.Intn(2, "revisit") == 1 {
-		// ask again for what the latest invalidation named (any query of that step)
-		iv := w.invs[len(w.invs)-1]
+	var done *w9Inv
+	for _, iv := range w.invs {
+		if iv.seen {
+			done = iv
+		}
+	}
+	if w.bbArmed && done != nil && (w.bbAftermath > 0 || c.Intn(2, "revisit") == 1) {
+		// ask again for what the latest completed invalidation named: any query of that step, or the
+		// query of one of the two latest requests
+		iv := done
+		if k := c.Intn(3, "revisit_query"); k > 0 && len(w.gets) >= k {
+			q = w.gets[len(w.gets)-k].q
+		}
 		for _, x := range w.steps {
 			if x.step == iv.step {
 				sc = x
@@ -686,6 +737,11 @@ func (w *w9World) launchGet() {
 	}
 	play := []int{0, 0, 0, 0, 0, 1, 5}[c.Intn(7, "play")]
 	force := c.Intn(8, "force_load") == 7
+	w.startGet(q, sc, base, s0, ln, play, force)
+}
+
+func (w *w9World) startGet(q int, sc w9StepCfg, base int64, s0, ln, play int, force bool) {
+	r := w.r
 	g := &w9Get{id: len(w.gets), q: q, step: sc.step, from: base + int64(s0)*sc.step, to: base + int64(s0+ln)*sc.step, play: play, force: force}
 	g.h = &requestHandler{Handler: w.hnd}
 	g.h.endpointStat.timings.Timings = map[string][]time.Duration{}
@@ -721,7 +777,7 @@ func (w *w9World) launchInvalidate() {
 	r, c := w.r, w.c
 	sc := w.steps[c.Intn(len(w.steps), "inv_step")]
 	base := sc.oldBase
-	if c.Intn(4, "inv_region") == 3 {
+	if w.bbFocus != 1 && c.Intn(4, "inv_region") == 3 {
 		base = sc.recentBase
 	}
 	n := 1 + c.Intn(3, "inv_count")
@@ -748,6 +804,7 @@ func (w *w9World) launchInvalidate() {
 	}
 	w.invs = append(w.invs, iv)
 	iv.startSeq = r.Seq()
+	iv.startNano = time.Now().UnixNano()
 	r.Sched("invalidate", "invalidator")
 	rel := make([]int64, len(slots))
 	for i, t := range slots {
@@ -792,6 +849,20 @@ func (w *w9World) drawLimits() {
 	}
 	w.r.Sched("limits", "admin")
 	w.setLimits(l, "set")
+}
+
+// squeeze: soft limit at 3/4, 2/4 or 1/4 of what the cache holds now (hard limit far above): the trim
+// goroutine removes the least recently used buckets and keeps the others.
+func (w *w9World) squeeze() {
+	size, inflight, _, _ := w.memState()
+	k := 3 - w.c.Intn(3, "squeeze")
+	l := cache2Limits{maxSize: 400 * w.rowB, maxSizeSoft: size * k / 4}
+	if int64(l.maxSize) < inflight || l.maxSizeSoft == 0 {
+		w.r.Probe("squeeze_skipped")
+		return
+	}
+	w.r.Sched("squeeze", "admin")
+	w.setLimits(l, fmt.Sprintf("squeeze to %d/4:", k))
 }
 
 // agedTrim makes the aged trimming pass run: the max-age timer of the trim goroutine only calls
@@ -855,6 +926,48 @@ func (w *w9World) stepWait(d time.Duration) {
 	w.observe()
 }
 
+// warmUp: before the schedule begins every query asks, one after the other, for the first chunks of
+// the old region of every step and its load is completed at once: every shard then holds one bucket
+// per query, in the order of the query ids, each with clean chunks.
+func (w *w9World) warmUp(gap time.Duration) {
+	r := w.r
+	for q := 0; q < w.nQ && !r.Failed(); q++ {
+		for _, sc := range w.steps {
+			n := w.uni(sc)
+			if n > 2*sc.csize {
+				n = 2 * sc.csize
+			}
+			w.stepWait(time.Microsecond)
+			w.startGet(q, sc, sc.oldBase, 0, n, 0, false)
+			for i := 0; i < 6 && !w.gets[len(w.gets)-1].judged && !r.Failed(); i++ {
+				w.stepWait(time.Microsecond)
+				if idle := w.idleLoads(); len(idle) > 0 {
+					if idle[0].delivered == len(idle[0].ret) {
+						w.command(idle[0], w9CmdReturn)
+					} else {
+						w.command(idle[0], w9CmdRest)
+					}
+				} else if tks := w.pts.Parked(); len(tks) > 0 {
+					r.Event("hook", "release ticket %d at %s", tks[0].ID, tks[0].Name)
+					w.pts.Release(tks[0].ID)
+				}
+			}
+		}
+		if gap > 0 {
+			r.Event("clock", "sleep %v", gap)
+			w.stepWait(gap)
+		}
+	}
+	// the chunk updates of the last loads (a load goroutine may stand at cache2.load.after_notify)
+	for i := 0; i < 4; i++ {
+		w.stepWait(time.Microsecond)
+		if tks := w.pts.Parked(); len(tks) > 0 {
+			r.Event("hook", "release ticket %d at %s", tks[0].ID, tks[0].Name)
+			w.pts.Release(tks[0].ID)
+		}
+	}
+}
+
 // ---- one run ----------------------------------------------------------------------------
 
 func w9Exec(t *testing.T, r *verifsim.Run) {
@@ -910,13 +1023,16 @@ func w9Run(t *testing.T, r *verifsim.Run) {
 		armed["cache2.load.after_notify"] = false
 	}
 	ops := 40 + c.Intn(160, "ops")
+	bbWarm := 0
 	if w.bbArmed {
 		// runs that park invalidation passes between buckets: several buckets per shard, and in two
 		// thirds of them a narrow universe so that the buckets' chunks cover the invalidated slots
 		w.nQ = 3 + c.Intn(3, "bb_queries")
-		w.bbFocus = c.Intn(3, "bb_focus")
+		w.bbFocus = []int{0, 1, 2, 1}[c.Intn(4, "bb_focus")]
 		r.Config["queries"] = w.nQ
 		r.Config["bb_focus"] = w.bbFocus
+		bbWarm = c.Intn(4, "bb_warm") // 0: cold start; 1..3: warm-up, no gap / 1 ms / 1 s between the queries
+		r.Config["bb_warm"] = bbWarm
 	}
 	r.Config["clients"] = clients
 	r.Config["queries"] = w.nQ
@@ -974,6 +1090,9 @@ func w9Run(t *testing.T, r *verifsim.Run) {
 		ld   *w9Load
 		tk   int
 	}
+	if bbWarm != 0 {
+		w.warmUp([]time.Duration{0, 0, time.Millisecond, time.Second}[bbWarm])
+	}
 	for op := 0; op < ops && !r.Failed(); op++ {
 		w.stepWait(time.Microsecond)
 		if r.Failed() {
@@ -1009,6 +1128,9 @@ func w9Run(t *testing.T, r *verifsim.Run) {
 		canGet := w.outstanding() < clients && len(w.gets) < 60 && w.allocWaiter() == nil
 		if canGet {
 			acts = append(acts, act{kind: "get"}, act{kind: "get"})
+			if w.bbAftermath > 0 {
+				acts = append(acts, act{kind: "get"}, act{kind: "get"})
+			}
 		}
 		running := 0
 		for _, iv := range w.invs {
@@ -1016,7 +1138,9 @@ func w9Run(t *testing.T, r *verifsim.Run) {
 				running++
 			}
 		}
-		if running < 2 && (!passParked || w.beforeArmed) {
+		// runs that park passes between buckets: fewer invalidations, so that buckets hold clean chunks
+		// (every invalidation of a narrow universe marks the chunk in every bucket)
+		if running < 2 && !passParked && (!w.bbArmed || op%4 == 0) {
 			acts = append(acts, act{kind: "invalidate"})
 		}
 		for _, ld := range idle {
@@ -1029,7 +1153,9 @@ func w9Run(t *testing.T, r *verifsim.Run) {
 			acts = append(acts, act{kind: "fail", ld: idle[c.Intn(len(idle), "fail_which")]})
 		}
 		acts = append(acts, act{kind: "sleep"})
-		if useLimits {
+		if useLimits && passParked {
+			acts = append(acts, act{kind: "squeeze"}, act{kind: "squeeze"})
+		} else if useLimits {
 			acts = append(acts, act{kind: "limits"})
 		}
 		if useReset {
@@ -1079,10 +1205,10 @@ func w9Run(t *testing.T, r *verifsim.Run) {
 			r.Event("clock", "sleep %v", d)
 			w.stepWait(d)
 		case "limits":
-			if passParked {
-				r.Probe("limits_drawn_while_invalidation_parked")
-			}
 			w.drawLimits()
+		case "squeeze":
+			r.Probe("squeeze_while_invalidation_parked")
+			w.squeeze()
 		case "reset":
 			r.Sched("reset", "admin")
 			r.Event("reset", "begin")
